@@ -286,6 +286,8 @@ def run(ctx):
 
 
 # ----------------------------------------------------------------------------------------------------------------------
+    check_filter_discipline(ctx)
+
 
 def _is_back(e) -> bool | None:
     """True if expr is `back` / `self.back`, False if `not back`."""
@@ -500,3 +502,87 @@ def check_mirror(ctx, rid, fi):
         ctx.check(rid, ok, fi.module, fi.qualname, f'if {norm(n.test)}: <{len(a)} push items> else: <{len(b)} push items>',
                   'forward arm is not the mirror image of the back arm (dropped / swapped / unreversed push);' + detail,
                   n.lineno, sample={'back_arm_items': len(a)})
+
+
+# ---- R14.3 -----------------------------------------------------------------------------------------------------------
+
+def check_filter_discipline(ctx):
+    """Every node that walk() hands to the caller (directly, `yield <node>` / `yield (<node>, flag)`) has passed the caller's `all` filter
+    on the path that leads to the yield: forward must-analysis of "check_all_param(<name>) evaluated true and <name> not rebound since"."""
+    from ..cfg import CFG, solve, subnodes
+    from ..model import walk_no_nested, call_name
+    ctx.rule('R14.3', 'walk(): every directly yielded node passed check_all_param() on the path to the yield (enter, leave and both agree on what '
+                      'the filter lets through)', 5)
+    for fi in ctx.repo.funcs('fst_traverse', 'walk'):
+        fn = fi.node
+        cfg = CFG(fn)
+        def carried(v):
+            """node name carried by a yielded value expression: `(fst_, True)`, `self if c else (self, False)`"""
+            vals = [v.body, v.orelse] if isinstance(v, ast.IfExp) else [v]
+            firsts = set()
+            for w in vals:
+                if isinstance(w, ast.Tuple) and w.elts and isinstance(w.elts[0], ast.Name):
+                    firsts.add(w.elts[0].id)
+                elif isinstance(w, ast.Name):
+                    firsts.add(w.id)
+                else:
+                    return None
+            return next(iter(firsts)) if len(firsts) == 1 else None
+
+        def checked_on(node):
+            """{label: name} for a test node that decides check_all_param(<name>)."""
+            if node.kind != 'test' or node.ast is None:
+                return {}
+            t = node.ast if isinstance(node.ast, ast.expr) else getattr(node.ast, 'test', None)
+            neg = False
+            if isinstance(t, ast.UnaryOp) and isinstance(t.op, ast.Not):
+                t, neg = t.operand, True
+            if isinstance(t, ast.Call) and call_name(t) == 'check_all_param' and t.args and isinstance(t.args[0], ast.Name):
+                return {('false' if neg else 'true'): t.args[0].id}
+            return {}
+
+        def transfer(node, st):
+            # state: set of ('ok', name) facts "check_all_param(name) holds" and ('car', carrier, name) facts "carrier holds (name, flag)"
+            st = set(st)
+            for x in subnodes(cfg, node):
+                if isinstance(x, ast.Name) and isinstance(x.ctx, ast.Store):
+                    st = {f for f in st if x.id not in f[1:]}
+            if node.kind == 'iter':
+                for x in ast.walk(node.ast.target):
+                    if isinstance(x, ast.Name):
+                        st = {f for f in st if x.id not in f[1:]}
+            if node.kind == 'stmt' and isinstance(node.ast, ast.Assign) and isinstance(node.ast.targets[0], ast.Name):
+                c = carried(node.ast.value)
+                if c is not None and not isinstance(node.ast.value, ast.Name):
+                    st.add(('car', node.ast.targets[0].id, c))
+            out = frozenset(st)
+            ck = checked_on(node)
+            if ck:
+                (lab, name), = ck.items()
+                return {lab: frozenset(st | {('ok', name)}), '*': out}
+            return out
+
+        ins = solve(cfg, frozenset(), transfer, lambda a_, b_: a_ & b_)
+        n = 0
+        for nd in cfg.nodes:
+            st = ins.get(nd.id)
+            if st is None:
+                continue
+            for x in subnodes(cfg, nd):
+                if isinstance(x, ast.Yield) and x.value is not None:
+                    v = x.value
+                    name = None
+                    if isinstance(v, ast.Name):
+                        cars = [f[2] for f in st if f[0] == 'car' and f[1] == v.id]
+                        name = cars[0] if cars else v.id
+                    elif isinstance(v, ast.Tuple) and v.elts and isinstance(v.elts[0], ast.Name):
+                        name = v.elts[0].id
+                    if name is None:
+                        continue
+                    n += 1
+                    ctx.check('R14.3', ('ok', name) in st, fi.module, fi.qualname, f'yield {norm(v)} @{nd.lineno}',
+                              f'`{name}` is handed to the caller on a path on which check_all_param({name}) was not (or no longer) known to hold: a node '
+                              f'the `all` filter rejects is yielded (e.g. the walk root on leaving, while it was not yielded on entering)', x.lineno,
+                              sample={'function': fi.key, 'yield': norm(v), 'checked_here': sorted(f[1] for f in st if f[0] == 'ok')})
+        if n < 5:
+            raise AnalysisError(f'walk(): only {n} direct yields found')
